@@ -148,7 +148,10 @@ fn vectors(rep: &mut Report, rng: &mut Rng, n: usize) {
         let w = Arc::new(ParallelVecWriter::new(vec![7u64; rng.below(5)]));
         let base = w.read_access().len();
         let mut hs = vec![];
-        for t in 0..threads { let w = w.clone(); let mut r = rng.fork(); hs.push(std::thread::spawn(move || { let mut mine = vec![]; for i in 0..40 { let len = r.below(50); let items: Vec<u64> = (0..len).map(|k| (t * 1_000_000 + i * 100 + k) as u64).collect(); let start = w.write_slice(&items); mine.push((start, items)); } mine })); }
+        for t in 0..threads { let w = w.clone(); let mut r = rng.fork(); hs.push(std::thread::spawn(move || { let mut mine = vec![]; for i in 0..40 { let len = if i % 5 == 4 { 500 + r.below(3000) } else { r.below(50) }; let items: Vec<u64> = (0..len).map(|k| (t * 1_000_000 + i * 100 + k) as u64).collect(); // both entry points: the slice copy and the iterator-driven write (whose items are produced while other threads
+                // reserve ranges and force the buffer to grow)
+                let start = if i % 2 == 0 { w.write_slice(&items) } else { let src = items.clone(); w.write_contents(src.into_iter().map(|x| { if x % 7 == 0 { std::thread::yield_now(); } x })) };
+                mine.push((start, items)); } mine })); }
         let mut ranges = vec![]; for h in hs { ranges.extend(h.join().unwrap_or_default()); }
         let data = Arc::try_unwrap(w).ok().map(|w| w.finish()).unwrap_or_default();
         let mut bad = None;
